@@ -120,6 +120,7 @@ theorem wf_marshalMedia (O : Oracle) (ab : Bool) (m : Media) (hm : ValidMedia O 
     · intro c hc; exact (lineCh_dec hc).1
   attrs_ok := by
     intro a ha
+    apply attrRT_of_wf
     rw [marshalMedia_attrs] at ha
     simp only [List.mem_append, List.mem_flatMap] at ha
     rcases ha with ha | ⟨f, hf, ha⟩ | ha
@@ -157,6 +158,7 @@ theorem wf_marshalDoc (O : Oracle) (s : Session) (hs : ValidSession O s) : WfDoc
     · exact hs.title_ok c hc
   attrs_ok := by
     intro a ha
+    apply attrRT_of_wf
     rw [marshalDoc_attrs] at ha
     simp only [List.mem_append] at ha
     rcases ha with ha | ha
